@@ -145,7 +145,24 @@ def blankRanges : String := Id.run do
   if let some lo := start then out := out.push s!"{String.ofList (Nat.toDigits 16 lo)}-10ffff"
   return ",".intercalate out.toList
 
+/-- `isPortableAliasName` on every one-character string below U+0300 (ranges) and on the harness's list of words -/
+def portableNames : String := Id.run do
+  let mut out : Array String := #[]
+  let mut start : Option Nat := none
+  for n in [0:0x300] do
+    let b := isPortableAliasName [Char.ofNat n]
+    match start, b with
+    | none, true => start := some n
+    | some lo, false =>
+      out := out.push s!"{String.ofList (Nat.toDigits 16 lo)}-{String.ofList (Nat.toDigits 16 (n - 1))}"
+      start := none
+    | _, _ => pure ()
+  let words := ["", "a", "ab_1", "a b", "a=b", "-x", "A!%,-@_9", "é", "a.b", "a/b", "x\ny"]
+  let bits := String.ofList (words.map fun w => if isPortableAliasName w.toList then '1' else '0')
+  return ",".intercalate out.toList ++ " " ++ bits
+
 def runLine (line : String) : String :=
+  if line.trimAscii.toString == "portable-names" then s!"portable {portableNames}\t-" else
   if line.trimAscii.toString == "blank-sweep" then s!"blank {blankRanges}\t-" else
   match parseCase line with
   | none => "bad-case\t-"
